@@ -601,16 +601,41 @@ class Ev:
 
     def __repr__(self): return "Ev(%s)" % self.label
 
+def AnyEv(*evs, label=None, transitive=None):
+    """an event that is any one of `evs` (e.g. "the helper is called" or "its one primitive is performed directly")"""
+    e = Ev("any", label=label or " | ".join(x.label for x in evs), transitive=any(x.transitive for x in evs) if transitive is None else transitive)
+    e.subs = list(evs)
+    return e
+
 def Call(fn, on=None, **kw): return Ev("call", fn=fn, on=on, **kw)
 def Write(on, **kw): return Ev("write", on=on, **kw)
 def Read(on, **kw): return Ev("read", on=on, **kw)
 def Agg(adt, var, **kw): return Ev("agg", adt=adt, var=var, **kw)
 def DropOf(ty, **kw): return Ev("drop", ty=ty, **kw)
 
+def _upvar_fields(f, o, depth=0):
+    """field chain of an origin; a leading closure-upvar projection (`(*arg1).N` inside a closure) is replaced by the field chain
+    of what the parent function captured there (edition-2021 closures capture `self.field` directly, not `self`)"""
+    ch, root = field_chain(o)
+    fields = ["%s.%s" % c for c in ch]
+    if depth < 3 and ch and ch[0][0].startswith("closure:") and root[0] == "arg" and root[1] == 1 and "::{closure" in f.id:
+        parent = f.prog.fns.get(f.id.rsplit("::{closure", 1)[0]) if f.prog is not None else None
+        try: idx = int(ch[0][1])
+        except ValueError: idx = None
+        if parent is not None and idx is not None:
+            cid = ch[0][0][len("closure:"):]
+            for b in parent.blocks:
+                if b.get("ghost"): continue
+                for st in b["st"]:
+                    if st.get("s") == "=" and st["rv"]["r"] == "agg" and st["rv"].get("ak") == "closure" and norm(st["rv"]["did"]) == norm(cid) and idx < len(st["rv"]["ops"]):
+                        po = simplify(trace_operand(parent, st["rv"]["ops"][idx]))
+                        return _upvar_fields(parent, po, depth + 1) + fields[1:]
+    return fields
+
 def receiver_fields(f, t, argi=0):
     if len(t["args"]) <= argi:
         return []
-    return all_fields(simplify(trace_operand(f, t["args"][argi])))
+    return _upvar_fields(f, simplify(trace_operand(f, t["args"][argi])))
 
 def receiver_leaf(f, t, argi=0):
     fs = receiver_fields(f, t, argi)
@@ -632,6 +657,8 @@ def rvalue_places(rv):
 def direct_match(f, pt, ev):
     """Does the node at pt itself match ev (no callee summaries)?"""
     n = f.node(pt)
+    if ev.kind == "any":
+        return any(direct_match(f, pt, x) for x in ev.subs)
     if ev.kind == "call":
         if not f.is_term(pt) or n["t"] not in ("call", "tailcall"):
             return False
@@ -933,11 +960,74 @@ class EdgeInfo:
         return "Edge(%s %s %s%s)" % (fmt_origin(self.origin), "==" if self.eq else "∉", self.vals,
                                      (" " + str(self.variant)) if self.variant else "")
 
+def _preds(f):
+    if getattr(f, "_predmap", None) is None:
+        pm = {}
+        for bi, b in enumerate(f.blocks):
+            if b.get("ghost"): continue
+            for (tb, _) in f.term_succs(bi):
+                pm.setdefault(tb, set()).add(bi)
+        f._predmap = pm
+    return f._predmap
+
+def reaching_defs(f, l, bb, pos):
+    """definitions of local l that reach position `pos` of block bb (statements [0, pos) of bb are before it): list of (Point, kind, payload)"""
+    defs = {}
+    for (pt, kind, payload) in f.defs().get(l, []):
+        defs.setdefault(pt.bb, []).append((pt, kind, payload))
+    out = []; seen = set()
+    stack = [(bb, pos)]
+    pm = _preds(f)
+    while stack:
+        b, p = stack.pop()
+        cands = [d for d in defs.get(b, []) if d[0].i < p]
+        if cands:
+            d = max(cands, key=lambda x: x[0].i)
+            if d not in out: out.append(d)
+            continue
+        for pb in pm.get(b, ()):
+            if pb in seen: continue
+            seen.add(pb)
+            stack.append((pb, len(f.blocks[pb]["st"]) + 1))
+    return out
+
+def trace_operand_at(f, op, bb, pos, depth=0):
+    """flow-sensitive origin of an operand used at (bb, pos): follows copies / Not / casts through the definitions that actually
+    reach the use (after jump threading a boolean temporary often has one reaching definition although it has several in the body)"""
+    pl = op.get("c") or op.get("m")
+    if pl is None or pl["p"] or depth > 8:
+        return trace_operand(f, op)
+    l = pl["l"]
+    if len(f.defs().get(l, [])) <= 1 and depth == 0:
+        pass
+    rd = reaching_defs(f, l, bb, pos)
+    if len(rd) != 1:
+        return trace_operand(f, op)
+    pt, kind, payload = rd[0]
+    if kind == "call":
+        return trace_call(f, pt, payload, 0)
+    rv = payload
+    if rv["r"] == "use":
+        return trace_operand_at(f, rv["o"], pt.bb, pt.i, depth + 1)
+    if rv["r"] == "un":
+        return O("un", rv["op"], trace_operand_at(f, rv["o"], pt.bb, pt.i, depth + 1))
+    if rv["r"] == "cast":
+        return O("cast", trace_operand_at(f, rv["o"], pt.bb, pt.i, depth + 1), rv["ck"], rv["ty"])
+    if rv["r"] == "bin":
+        return O("bin", rv["op"], trace_operand_at(f, rv["a"], pt.bb, pt.i, depth + 1), trace_operand_at(f, rv["b"], pt.bb, pt.i, depth + 1))
+    if rv["r"] == "discr":
+        dpl = rv["pl"]
+        if not dpl["p"]:
+            inner = trace_operand_at(f, {"c": dpl}, pt.bb, pt.i, depth + 1)
+            vs = rv.get("vars")
+            return O("discr", inner, tuple((int(a), b) for a, b in vs) if vs else None)
+    return trace_rvalue(f, rv, 0, pt)
+
 def switch_info(f, bb):
     """operand origin of the switch terminating bb"""
     t = f.term(bb)
     assert t["t"] == "sw"
-    return simplify(trace_operand(f, t["o"]))
+    return simplify(trace_operand_at(f, t["o"], bb, len(f.blocks[bb]["st"])))
 
 def variant_names(prog, f, origin):
     """for a discr(origin) find {discr value: variant name}"""
@@ -1118,12 +1208,26 @@ def _edge_atoms_of(prog, f, bb, label, o):
             atoms.append(Atom("call", name=o[2], site=o[1], recv=receiver_leaf(f, ct), truth=truth, origin=o))
         elif o[0] == "bin" and o[1] in CMP_OPS:
             op = o[1] if truth else CMP_NEG[o[1]]
-            atoms.append(Atom("cmp", op=op, a=simplify(o[2]), b=simplify(o[3])))
+            ca, cb = simplify(o[2]), simplify(o[3])
+            atoms.append(Atom("cmp", op=op, a=ca, b=cb))
+            # `x == c` / `x != c` is the same fact as taking / not taking the `c` arm of `match x`
+            if op in ("Eq", "Ne"):
+                for x, c in ((ca, cb), (cb, ca)):
+                    cc = c
+                    while cc[0] == "cast": cc = cc[1]
+                    if cc[0] == "const" and cc[2] is not None and x[0] != "const":
+                        try: atoms.append(Atom("val", origin=x, eq=(op == "Eq"), vals=(int(cc[2]),)))
+                        except (TypeError, ValueError): pass
         elif o[0] == "bin" and o[1] in ("BitAnd", "BitOr", "BitXor"):
             atoms.append(Atom("boolop", op=o[1], a=simplify(o[2]), b=simplify(o[3]), truth=truth))
         atoms.append(Atom("truth", origin=o, truth=truth))
         return atoms
     atoms.append(Atom("val", origin=o, eq=eq, vals=vals))
+    if len(vals) == 1 and o[0] != "discr":
+        try:
+            c = O("const", "%s" % (vals[0],), int(vals[0]), (), None)
+            atoms.append(Atom("cmp", op="Eq" if eq else "Ne", a=o, b=c))
+        except (TypeError, ValueError): pass
     return atoms
 
 def cmp_matches(atom, op, pa, pb):
